@@ -17,7 +17,10 @@ def setup():
     with common.Lock():
         translate.translate()
         # table theorems that are false on the current tree must not stop the rest from building
-        rc, out, err, dt = common.run(["lake", "build"], timeout=7200)
+        import re
+        with open(os.path.join(common.LEAN_DIR, "lakefile.toml"), encoding="utf8") as f:
+            exes = re.findall(r'^name = "(drv_[^"]+)"', f.read(), flags=re.M)
+        rc, out, err, dt = common.run(["lake", "build", "Barril"] + exes, timeout=7200)
         sys.stdout.write((out + err)[-3000:])
         print("setup: lake build exit %d in %.0fs" % (rc, dt))
     return 0
